@@ -230,6 +230,9 @@ func c08Text(r *rng, items []c08Item, explicit bool, perturb int) (string, int) 
 		id := want[k]
 		if k == perturb {
 			id += 1 + int64(r.intn(2))
+			if c08PerturbToZero {
+				id = 0
+			}
 		}
 		return fmt.Sprintf("%%%d", id)
 	}
@@ -262,6 +265,9 @@ func c08Text(r *rng, items []c08Item, explicit bool, perturb int) (string, int) 
 				id := want[i]
 				if i == perturb {
 					id += 1
+					if c08PerturbToZero {
+						id = 0
+					}
 				}
 				fmt.Fprintf(&b, "%d:\n", id)
 			}
@@ -321,6 +327,9 @@ func c08Text(r *rng, items []c08Item, explicit bool, perturb int) (string, int) 
 			id := want[k]
 			if k == perturb {
 				id++
+				if c08PerturbToZero {
+					id = 0
+				}
 			}
 			fmt.Fprintf(&b, "@ba%d = global i8* blockaddress(@f, %%%d)\n", k, id)
 		}
@@ -353,6 +362,9 @@ func c08Names(items []c08Item, want []int64) []string {
 	}
 	return names
 }
+
+// set while a text with a misplaced number 0 is rendered
+var c08PerturbToZero bool
 
 func c08BlockLabel(items []c08Item, want []int64, names []string, from int) string {
 	// the enclosing block of position from
@@ -473,6 +485,26 @@ func c08ParseCheck(c *config, r *rng, items []c08Item) {
 	for k, it := range items {
 		if want[k] >= 0 && !it.named && want[k] > 0 {
 			cand = append(cand, k)
+		}
+	}
+	// the same with the number 0 written on a value that is not the first unnamed one (an explicit 0 cannot be
+	// told from no number once it is stored in the identifier: KF-42, repaired in the parser)
+	if len(cand) > 0 {
+		k := cand[r.intn(len(cand))]
+		c08PerturbToZero = true
+		src, _ := c08Text(r, items, true, k)
+		c08PerturbToZero = false
+		oc, _ := guard(func() error {
+			_, err := asm.ParseString("c08z.ll", src)
+			return err
+		})
+		o.Stat("parse.explicit_zero_misplaced")
+		if oc == ocOk {
+			o.Fail("wrong_numbering_rejected", "", "a function with the number 0 on a later unnamed value is accepted", map[string]interface{}{"src": src})
+		} else if oc == ocPanic {
+			o.Fail("wrong_numbering_rejected", "", "a mis-numbered function crashes the parser", map[string]interface{}{"src": src})
+		} else {
+			o.Pass("wrong_numbering_rejected")
 		}
 	}
 	if len(cand) > 0 {
